@@ -200,6 +200,31 @@ Proof.
   cbn [host_text]. now rewrite Hip.
 Qed.
 
+(* an authority whose host is an IP literal (bracketed IPv6, or a dotted quad) *)
+Definition ip_authority (a : authority) : bool :=
+  match a_host a with
+  | HV6 _ => true
+  | HName s => is_ipv4 (to_lower s)
+  end.
+
+Lemma domain_ip_whole a :
+  wf_authority a = true -> ip_authority a = true ->
+  get_domain (render_authority a) = to_lower (host_text (a_host a)).
+Proof.
+  intros Hwf Hip. unfold ip_authority in Hip. destruct (a_host a) as [s|s] eqn:Hh; cbn [host_text].
+  - now apply domain_v4.
+  - now apply domain_v6.
+Qed.
+
+Lemma same_domain_ip_iff a b via :
+  wf_authority a = true -> wf_authority b = true ->
+  ip_authority a = true -> ip_authority b = true ->
+  permits PSameDomain (render_authority a) (render_authority b :: via) = true <->
+  to_lower (host_text (a_host a)) = to_lower (host_text (a_host b)).
+Proof.
+  intros Ha Hb Ia Ib. cbn [permits hd]. rewrite !domain_ip_whole by assumption. apply bytes_eqb_eq.
+Qed.
+
 Lemma domain_pinned_refuted :
   get_domain_pinned (bs "1.2.3.4") = get_domain_pinned (bs "9.2.3.4").
 Proof. reflexivity. Qed.
